@@ -677,7 +677,7 @@ def showCall : Connect.Call → String
   | .connect i => "connect" ++ toString i
   | .close i => "close" ++ toString i
 
-/-- C09 / C19: `link url=… http=… https=… wrap=… sel=… gai=<-|o1,o2,…> | <reads> | <core cfg> | <env> | <reactions>`
+/-- C09 / C19: `link url=… http=… https=… wrap=… sel=… pclose=… gai=<-|o1,o2,…> | <reads> | <core cfg> | <env> | <reactions>`
     — the composed trace of one connection (`ConnectLink.composed`): core observations as in `core`,
     connection-phase actions as `P:<proxy token>`, socket-module calls as `S:<call>`.  `wfail` (in the core
     section) counts the `sendall`s of the whole connection; `conn` there is ignored. -/
@@ -702,7 +702,9 @@ def runLink (line : String) : String :=
           writeFails := base.writeFails
           reads := (readsS.splitOn " ").filterMap parseRead
           wrapOk := kv lt "wrap" "1" = "1"
-          selOk := kv lt "sel" "1" = "1" }
+          selOk := kv lt "sel" "1" = "1"
+          -- code shape found by the harness's probe of the real `_connect_proxy` (finding D11)
+          pclose := kv lt "pclose" "1" = "1" }
       let showItem : ConnectLink.Item → String
         | .core o => showObs o
         | .io x => "P:" ++ showIo x
